@@ -45,8 +45,10 @@ import (
 type Knobs map[string]int
 
 type ProjSpec struct {
-	GlobalEnv int              `json:"genv,omitempty"`
-	Procs     map[string]Knobs `json:"procs"`
+	GlobalEnv  int              `json:"genv,omitempty"`
+	GlobalVars int              `json:"gvars,omitempty"` // project-level vars: rendered into templated commands by the loader
+	Shell      int              `json:"shell,omitempty"` // project-level shell: decides executable/args of command-form processes
+	Procs      map[string]Knobs `json:"procs"`
 }
 
 type knobDef struct {
@@ -59,7 +61,7 @@ type knobDef struct {
 
 var knobDefs = []knobDef{
 	{"form", 2, true, -1, true},
-	{"command", 3, true, 0, true},
+	{"command", 4, true, 0, true},
 	{"exe", 3, true, 1, true},
 	{"eparg", 2, true, 1, true},
 	{"environment", 4, true, -1, true},
@@ -113,7 +115,7 @@ type genEnv struct {
 func procYAML(name string, k Knobs, ge *genEnv) map[string]interface{} {
 	m := map[string]interface{}{}
 	if k["form"] == 0 {
-		m["command"] = []string{"sleep 1000", "sleep 2000", "echo hi; sleep 3000"}[k["command"]]
+		m["command"] = []string{"sleep 1000", "sleep 2000", "echo hi; sleep 3000", "echo {{.MSG}}; sleep 4000"}[k["command"]]
 	} else {
 		m["entrypoint"] = []string{[]string{"python3", "python2", "/opt/bin/prog"}[k["exe"]], []string{"a.py", "b.py"}[k["eparg"]]}
 	}
@@ -267,6 +269,12 @@ func projYAML(s *ProjSpec, ge *genEnv) string {
 	if s.GlobalEnv > 0 {
 		root["environment"] = globalEnvs[s.GlobalEnv]
 	}
+	if s.GlobalVars > 0 {
+		root["vars"] = map[string]interface{}{"MSG": []string{"", "one", "two"}[s.GlobalVars]}
+	}
+	if s.Shell > 0 {
+		root["shell"] = map[string]interface{}{"shell_command": []string{"", "sh", "bash"}[s.Shell], "shell_argument": "-c"}
+	}
 	b, err := yaml.Marshal(root)
 	if err != nil {
 		panic(err)
@@ -400,14 +408,14 @@ func (in *interner) launchParams(exe string, args, effenv []string, dir string) 
 // ---------------------------------------------------------------------------------- case records
 
 type CmpCase struct {
-	Kind   string `json:"kind"`
-	A      Knobs  `json:"a"`
-	B      Knobs  `json:"b"`
-	RT     bool   `json:"json_round_trip_of_b,omitempty"`
-	Res    bool   `json:"compare"`
-	Diff   []string `json:"fields_differing,omitempty"`
-	coqA   string
-	coqB   string
+	Kind    string   `json:"kind"`
+	A       Knobs    `json:"a"`
+	B       Knobs    `json:"b"`
+	RT      bool     `json:"json_round_trip_of_b,omitempty"`
+	Res     bool     `json:"compare"`
+	Diff    []string `json:"fields_differing,omitempty"`
+	coqA    string
+	coqB    string
 	LoadErr string `json:"load_error,omitempty"`
 }
 
@@ -417,13 +425,13 @@ type StepIn struct {
 }
 
 type Ev struct {
-	K      string            `json:"k"` // stop, end, launch
-	Name   string            `json:"name"`
-	Inst   int64             `json:"inst"`
-	Exe    string            `json:"exe,omitempty"`
-	Args   []string          `json:"args,omitempty"`
-	EffEnv []string          `json:"effenv,omitempty"`
-	Dir    string            `json:"dir,omitempty"`
+	K      string   `json:"k"` // stop, end, launch
+	Name   string   `json:"name"`
+	Inst   int64    `json:"inst"`
+	Exe    string   `json:"exe,omitempty"`
+	Args   []string `json:"args,omitempty"`
+	EffEnv []string `json:"effenv,omitempty"`
+	Dir    string   `json:"dir,omitempty"`
 	params string
 }
 
@@ -1005,7 +1013,7 @@ func sortedProcKeys(m map[string]*app.Process) []string {
 }
 
 func copySpec(s *ProjSpec) ProjSpec {
-	r := ProjSpec{GlobalEnv: s.GlobalEnv, Procs: map[string]Knobs{}}
+	r := ProjSpec{GlobalEnv: s.GlobalEnv, GlobalVars: s.GlobalVars, Shell: s.Shell, Procs: map[string]Knobs{}}
 	for n, k := range s.Procs {
 		r.Procs[n] = copyKnobs(k)
 	}
@@ -1018,6 +1026,8 @@ func withTeardown(c *RunCase) *RunCase {
 	td := copySpec(&teardown)
 	if len(c.Steps) > 0 {
 		td.GlobalEnv = c.Steps[len(c.Steps)-1].Spec.GlobalEnv
+		td.GlobalVars = c.Steps[len(c.Steps)-1].Spec.GlobalVars
+		td.Shell = c.Steps[len(c.Steps)-1].Spec.Shell
 	}
 	c.Steps = append(c.Steps, StepIn{Mode: "direct", Spec: td})
 	return c
@@ -1058,6 +1068,18 @@ func genDirected() []*RunCase {
 		p1.GlobalEnv = 2
 		cs = append(cs, withTeardown(&RunCase{Kind: "directed:project-environment", Steps: []StepIn{{Mode: "boot", Spec: p0}, {Mode: "direct", Spec: p1}}}))
 	}
+	// only project-level vars / shell changed: the process's own YAML text is identical, its rendered command /
+	// executable is not (the configuration the loader hands to UpdateProject differs in a launch-relevant field)
+	for _, mode := range []string{"direct", "reload"} {
+		p0 := ProjSpec{GlobalVars: 1, Procs: map[string]Knobs{"p": {"command": 3}, "q": {"form": 1}}}
+		p1 := copySpec(&p0)
+		p1.GlobalVars = 2
+		cs = append(cs, withTeardown(&RunCase{Kind: "directed:project-vars:" + mode, Steps: []StepIn{{Mode: "boot", Spec: p0}, {Mode: mode, Spec: p1}, {Mode: mode, Spec: copySpec(&p1)}}}))
+		s0 := ProjSpec{Shell: 1, Procs: map[string]Knobs{"p": {}, "q": {"form": 1}}}
+		s1 := copySpec(&s0)
+		s1.Shell = 2
+		cs = append(cs, withTeardown(&RunCase{Kind: "directed:project-shell:" + mode, Steps: []StepIn{{Mode: "boot", Spec: s0}, {Mode: mode, Spec: s1}}}))
+	}
 	// the same process changed in successive updates (each must stop the instance the previous one started)
 	{
 		steps := []StepIn{{Mode: "boot", Spec: ProjSpec{Procs: map[string]Knobs{"p": {}, "q": {"form": 1}}}}}
@@ -1077,7 +1099,7 @@ func genDirected() []*RunCase {
 
 func genRandomRun(r *rand.Rand) *RunCase {
 	names := []string{"a", "b", "c", "d", "e"}
-	spec := ProjSpec{GlobalEnv: r.Intn(2), Procs: map[string]Knobs{}}
+	spec := ProjSpec{GlobalEnv: r.Intn(2), GlobalVars: 1 + r.Intn(2), Procs: map[string]Knobs{}}
 	n := 2 + r.Intn(3)
 	for _, i := range r.Perm(len(names))[:n] {
 		spec.Procs[names[i]] = randKnobs(r, true, 0.2)
@@ -1115,6 +1137,9 @@ func genRandomRun(r *rand.Rand) *RunCase {
 			next.Procs["a"] = Knobs{}
 		}
 		fixDeps(&next)
+		if r.Intn(4) == 0 {
+			next.GlobalVars = 3 - next.GlobalVars // only the rendering of templated commands changes
+		}
 		// a dependency that is no longer needed may or may not stay
 		mode := []string{"direct", "direct", "reload", "rest", "restreload"}[r.Intn(5)]
 		c.Steps = append(c.Steps, StepIn{Mode: mode, Spec: copySpec(&next)})
